@@ -836,34 +836,3 @@ theorem centroid_length (rows : List Row) (F : Nat) (hF : ∀ r ∈ rows, r.leng
 
 end BB
 
-#print axioms BB.unpack_pack
-#print axioms BB.pack_length
-#print axioms BB.pack_lt
-#print axioms BB.pack_unpack
-#print axioms BB.popBytes_pack
-#print axioms BB.andBytes_pack
-#print axioms BB.jtPacked_pack
-#print axioms BB.popWords_eq_popBytes
-#print axioms BB.argmaxFirst_lt
-#print axioms BB.argmaxFirst_max
-#print axioms BB.argmaxFirst_first
-#print axioms BB.argminFirst_lt
-#print axioms BB.argminFirst_min
-#print axioms BB.argminFirst_first
-#print axioms BB.medoidIdx_lt
-#print axioms BB.popc_andRow_le_left
-#print axioms BB.popc_andRow_le_right
-#print axioms BB.popc_le_length
-#print axioms BB.jtCounts_le_one
-#print axioms BB.jtCounts_nonneg
-#print axioms BB.jtBits_self
-#print axioms BB.jtBits_comm
-#print axioms BB.jtBits_le_one
-#print axioms BB.jtBits_nonneg
-#print axioms BB.addLs_comm
-#print axioms BB.addLs_assoc
-#print axioms BB.colSum_length
-#print axioms BB.colSum_snoc
-#print axioms BB.colSum_append
-#print axioms BB.colSum_getD
-#print axioms BB.centroid_majority
